@@ -1761,6 +1761,9 @@ func (c *cluster) considerTopology() error {
 // the test is the lightest weight endpoint of the node in question /version
 // TODO provide more robust solution to false nodeLeave events
 func confirmNodeDown(uri URI, log logger.Logger) bool {
+	if down, ok := verifLifecycleConfirmDown(uri); ok {
+		return down
+	}
 	u := url.URL{
 		Scheme: uri.Scheme,
 		Host:   uri.HostPort(),
